@@ -227,7 +227,11 @@ def ownership(P, R, rule='C14.OWN.1'):
         if s.ev['k'] != 'store' or s.ev.get('op') != '=':
             continue
         l, r = s.ev['lhs'], s.ev.get('rhs') or {}
-        if l.get('k') == 'mem' and r.get('k') == 'mem' and l['field'] == r['field'] and l.get('t') == 'char *' and isinstance(l.get('base'), dict) and isinstance(r.get('base'), dict) and sx(l['base']) != sx(r['base']):
+        direct = l.get('k') == 'mem' and r.get('k') == 'mem' and l['field'] == r['field'] and l.get('t') == 'char *' and isinstance(l.get('base'), dict) and isinstance(r.get('base'), dict) and sx(l['base']) != sx(r['base'])
+        # ... or the move goes through a local: `new_value = source->value; ... target->value = new_value;`
+        via_local = is_var(l) and l.get('sc') == 'local' and r.get('k') == 'mem' and r.get('t') == 'char *' and is_var(r.get('base')) and r['base']['name'].startswith('source') \
+            and any(t.ev['k'] == 'store' and (t.ev['lhs'] or {}).get('k') == 'mem' and t.ev['lhs'].get('field') == r['field'] and any(is_var(x, l['name']) for x in walk(t.ev.get('rhs') or {})) for t in rv.stores())
+        if direct or via_local:
             n += 1
             src = r
 
@@ -244,7 +248,7 @@ def ownership(P, R, rule='C14.OWN.1'):
                     return bool(d) and same(d[1], dst) and rv.before(d[0], s)
                 return False
             p = rv.path_avoiding(s, nulls)
-            R.ob(rule, p is None, s, 'the pointer moved by %s = %s is nulled at the source (or swapped for the one it replaces) on every path (both trees are disposed later)' % (sx(l), sx(r)), key='move:%s' % l['field'])
+            R.ob(rule, p is None, s, 'the pointer moved by %s = %s is nulled at the source (or swapped for the one it replaces) on every path (both trees are disposed later)' % (sx(l), sx(r)), key='move:%s' % r['field'])
     R.floor(rule, 3, 'pointer moves from the scratch tree')
 
 
